@@ -131,6 +131,12 @@ func c18Tables(c *Ctx, r *Report, p *Prog, f *Folder, cv *curveT) {
 				if id, ok := e.(*ast.Ident); ok && id.Name == "nil" {
 					return ""
 				}
+				// the table handed over by value (a slice header) instead of by pointer
+				if id, ok := e.(*ast.Ident); ok {
+					if v, ok := pk.TypesInfo.Uses[id].(*types.Var); ok && v.Parent() == pk.Types.Scope() {
+						return id.Name
+					}
+				}
 				return "?"
 			}
 			sc.table, sc.remTbl = nameOf(call.Args[1]), nameOf(call.Args[2])
